@@ -207,14 +207,33 @@ func runC18(r *Run, seed int64, c c18Case) {
 		chain.Mine(2)
 	}
 	rn.notify()
-	refunded := waitUntil(3*time.Second, func() bool {
+	isRefunded := func() bool {
 		rn.notify()
 		st := ""
 		if rec := m.StoredSwap(id.String()); rec != nil {
 			st = string(rec.Current)
 		}
 		return st == string(swap.State_ClaimedCsv) || st == string(swap.State_ClaimedCoop)
-	})
+	}
+	refunded := waitUntil(3*time.Second, isRefunded)
+	if !refunded {
+		// no verdict from a wall-clock deadline: keep waiting while the world still does something; "no refund" is
+		// only judged once nothing has happened for 5 s (no new event, no call in flight), 90 s at most
+		lastN, quietSince, t0 := len(w.Events()), time.Now(), time.Now()
+		for !refunded && time.Since(t0) < 90*time.Second {
+			time.Sleep(50 * time.Millisecond)
+			refunded = isRefunded()
+			if n := len(w.Events()); n != lastN || w.Blocked() > 0 {
+				lastN, quietSince = n, time.Now()
+			} else if time.Since(quietSince) > 5*time.Second {
+				break
+			}
+		}
+		if !refunded && time.Since(t0) >= 90*time.Second {
+			r.Inconclusive(fmt.Sprintf("refund not observed but the world was still busy after 90 s; case %+v", c))
+			return
+		}
+	}
 	final := ""
 	if rec := m.StoredSwap(id.String()); rec != nil {
 		final = string(rec.Current)
